@@ -73,9 +73,12 @@ ASSUMPTIONS = [
     "happens to be called joint.jacobian; z = the tensors moved by the MCMC operators, or the x of the variational distribution; y = the "
     "variables on which the loaded joint places densities, by class (Distribution.x, GMRF.field, CTMCScale.x, "
     "ScaleMixtureNormal.x, branch lengths for the gamma-Dirichlet prior, internal node heights for coalescent and "
-    "birth-death priors; Dirichlet variables drop their last coordinate). Jacobian terms of joint.jacobian that "
-    "only depend on blocks of z on which no density is placed (sitemodel.pinv, bdsk.s, srd06.mu, heights without a "
-    "tree prior, ...) are accepted present or absent; configurations whose y is not a bijective image of the "
+    "birth-death priors; Dirichlet variables drop their last coordinate). For a block of z on which no density is placed "
+    "(sitemodel.pinv, bdsk.s, srd06.mu, heights without a tree prior, ...) the transform that constrains it directly "
+    "(TransformedParameter whose x is the block: sigmoid, exp, stick breaking) must be counted exactly once (implicit "
+    "flat prior on the documented, constrained parameter); further terms that only depend on such blocks (a transform "
+    "of a transform such as srd06.mus, the node-height transform without a tree prior) are accepted present or "
+    "absent; the comparison is made at the initial point and at a deterministic perturbed point; configurations whose y is not a bijective image of the "
     "remaining blocks are counted as jac_undetermined and not asserted; map has no Jacobians by design",
     "one iteration: --iter 1 (advi, mcmc, hmc; --samples 2 for advi, --steps 2 for hmc) is passed unless the case sets these options; "
     "map's L-BFGS is cut to one outer and one inner iteration on the loaded object (its first step is bounded by the "
@@ -768,51 +771,42 @@ def _jac(f, x):
     return torch.autograd.functional.jacobian(f, x)
 
 
-def jacobian_oracle(target, joint, blocks):
-    """returns dict(status=..., expected=log|det dy/dz| over the blocks y depends on, observed=target-joint minus the
-    terms that only depend on prior-free blocks, ...)"""
-    getters, unknown = prior_variables(joint)
-    info = {"unknown": unknown}
-    if unknown:
-        info["status"] = "unknown_class"
-        return info
-    z0 = [b.tensor.detach().clone() for b in blocks]
-    shapes = [tuple(t.shape) for t in z0]
-    sizes = [t.numel() for t in z0]
-    flat0 = torch.cat([t.reshape(-1) for t in z0]) if z0 else torch.zeros(0)
-    terms = None
-    try:
-        cs = list(target._distributions.callables())
-        if any(c is joint for c in cs):
-            terms = [c for c in cs if c is not joint]
-    except AttributeError:
-        terms = None
-    try:
-        def fy(flat):
+def _first_level(dic, block):
+    """the TransformedParameters of the loaded file that constrain this unconstrained block directly (x is the block)"""
+    from torchtree.core.parameter import TransformedParameter
+
+    return [t for t in (dic or {}).values() if type(t) is TransformedParameter and getattr(t, "x", None) is block]
+
+
+def _oracle_at(target, joint, blocks, dic, flat0, shapes, sizes, getters, terms):
+    info = {}
+
+    def fy(flat):
+        _set_blocks(blocks, shapes, flat)
+        ys = [g().reshape(-1) for g in getters]
+        return torch.cat(ys) if ys else flat[:0]
+
+    J = _jac(fy, flat0) if getters else torch.zeros(0, flat0.numel(), dtype=flat0.dtype)
+    dep = None
+    any_free = J.numel() == 0 or bool((J == 0).all(0).any())
+    if terms and any_free:
+        delta = 0.173 + 0.061 * torch.arange(flat0.numel(), dtype=flat0.dtype) / max(1, flat0.numel())
+
+        def ft(flat):
             _set_blocks(blocks, shapes, flat)
-            ys = [g().reshape(-1) for g in getters]
-            return torch.cat(ys) if ys else flat[:0]
+            return torch.stack([t().sum() for t in terms])
 
-        J = _jac(fy, flat0) if getters else torch.zeros(0, flat0.numel(), dtype=flat0.dtype)
-        dep = None
-        any_free = J.numel() == 0 or bool((J == 0).all(0).any())
-        if terms and any_free:
-            delta = 0.173 + 0.061 * torch.arange(flat0.numel(), dtype=flat0.dtype) / max(1, flat0.numel())
-
-            def ft(flat):
-                _set_blocks(blocks, shapes, flat)
-                return torch.stack([t().sum() for t in terms])
-
-            dep = _jac(ft, flat0 + delta)
-    finally:
-        _set_blocks(blocks, shapes, flat0)
+        dep = _jac(ft, flat0 + delta)
+    _set_blocks(blocks, shapes, flat0)
     J = J.detach()
     cols = []
+    spans = []
     off = 0
     used = []
     for i, n in enumerate(sizes):
         u = bool((J[:, off:off + n] != 0).any()) if J.numel() else False
         used.append(u)
+        spans.append((off, off + n))
         if u:
             cols.extend(range(off, off + n))
         off += n
@@ -835,27 +829,84 @@ def jacobian_oracle(target, joint, blocks):
         expected = float(logabs)
     else:
         expected = 0.0
+    # blocks without a density: the transform that constrains them directly is still a constraining transform of a
+    # sampled parameter (implicit flat prior on the documented, constrained parameter): exactly once
+    mandatory = []
+    mandatory_ids = []
+    for bi, (blk, u) in enumerate(zip(blocks, used)):
+        if u:
+            continue
+        for T in _first_level(dic, blk):
+            a, b_ = spans[bi]
+
+            def fc(v, T=T, blk=blk, shp=shapes[bi]):
+                blk.tensor = v.reshape(shp)
+                c = T.tensor.reshape(-1)
+                return c[:-1] if c.numel() == v.numel() + 1 else c
+
+            Jc = _jac(fc, flat0[a:b_]).detach()
+            blk.tensor = flat0[a:b_].reshape(shapes[bi])
+            if Jc.dim() == 2 and Jc.shape[0] == Jc.shape[1]:
+                sg, la = torch.linalg.slogdet(Jc)
+                if float(sg) != 0.0 and math.isfinite(float(la)):
+                    expected += float(la)
+                    mandatory.append(T)
+                    mandatory_ids.append(str(getattr(T, "id", None)))
     free_terms = []
     term_values = {}
-    if terms is not None and dep is None:
-        for t in terms:
-            term_values[str(getattr(t, "id", None) or type(t).__name__)] = float(t().detach().sum())
-    elif terms is not None:
-        off = 0
-        spans = []
-        for n in sizes:
-            spans.append((off, off + n))
-            off += n
+    if terms is not None:
         for ti, t in enumerate(terms):
             val = float(t().detach().sum())
             tid = getattr(t, "id", None) or type(t).__name__
             term_values[str(tid)] = val
-            d_used = any(bool((dep[ti, a:b] != 0).any()) for (a, b), u in zip(spans, used) if u)
-            d_free = any(bool((dep[ti, a:b] != 0).any()) for (a, b), u in zip(spans, used) if not u)
-            if d_free and not d_used:
+            if dep is None:
+                continue
+            d_used = any(bool((dep[ti, a:b_] != 0).any()) for (a, b_), u in zip(spans, used) if u)
+            d_free = any(bool((dep[ti, a:b_] != 0).any()) for (a, b_), u in zip(spans, used) if not u)
+            if d_free and not d_used and not any(t is m for m in mandatory):
                 free_terms.append(str(tid))
                 observed -= val
-    info.update(status="ok", expected=expected, observed=observed, free_terms=free_terms, terms=term_values)
+    info.update(status="ok", expected=expected, observed=observed, free_terms=free_terms, terms=term_values,
+                mandatory_free=mandatory_ids)
+    return info
+
+
+def jacobian_oracle(target, joint, blocks, dic=None, perturbed=True):
+    """returns dict(status=..., expected=log|det dy/dz| over the blocks y depends on plus the log-determinant of the
+    directly constraining transform of every block without a density, observed=target-joint minus the remaining
+    terms that only depend on prior-free blocks, ...); evaluated at the initial point and, when that balances, at a
+    perturbed point (Jacobians are not constants); everything is differentiated by autograd through whatever chain
+    of (nested) transformed parameters the loaded objects form"""
+    getters, unknown = prior_variables(joint)
+    if unknown:
+        return {"unknown": unknown, "status": "unknown_class"}
+    z0 = [b.tensor.detach().clone() for b in blocks]
+    shapes = [tuple(t.shape) for t in z0]
+    sizes = [t.numel() for t in z0]
+    flat0 = torch.cat([t.reshape(-1) for t in z0]) if z0 else torch.zeros(0)
+    terms = None
+    try:
+        cs = list(target._distributions.callables())
+        if any(c is joint for c in cs):
+            terms = [c for c in cs if c is not joint]
+    except AttributeError:
+        terms = None
+    try:
+        info = _oracle_at(target, joint, blocks, dic, flat0, shapes, sizes, getters, terms)
+        info["point"] = "initial"
+        balanced = info["status"] == "ok" and abs(info["observed"] - info["expected"]) <= 1e-8 * max(1.0, abs(info["expected"]))
+        if perturbed and balanced and flat0.numel():
+            k = torch.arange(flat0.numel(), dtype=flat0.dtype)
+            shift = (0.11 + 0.07 * (k % 3)) * (1.0 - 2.0 * (k % 2))
+            info2 = _oracle_at(target, joint, blocks, dic, flat0 + shift, shapes, sizes, getters, terms)
+            if info2["status"] == "ok":
+                info2["point"] = "perturbed"
+                info["perturbed_checked"] = True
+                if abs(info2["observed"] - info2["expected"]) > 1e-8 * max(1.0, abs(info2["expected"])):
+                    info = info2
+    finally:
+        _set_blocks(blocks, shapes, flat0)
+    info["unknown"] = []
     return info
 
 
@@ -871,6 +922,7 @@ def explain_jacobian(info):
             extra.append(mask(tid, 40))
         if abs(val) > tol and abs(diff + val) <= tol:
             missing.append(mask(tid, 40))
+    missing += [m for m in info.get("mandatory_free", []) if m not in info.get("terms", {}) and m not in missing]
     info["candidates"] = {"extra": extra, "missing": missing}
     if extra:
         return "extra"
@@ -1174,7 +1226,7 @@ def eval_config(cmd, opts, data, res, case):
             count("jac_no_z")
         else:
             for where, dens in handed:
-                info, ok = try_("jacobian", res, tags, jacobian_oracle, dens, joint, blocks)
+                info, ok = try_("jacobian", res, tags, jacobian_oracle, dens, joint, blocks, dic)
                 if not ok:
                     break
                 st_ = info["status"]
@@ -1611,7 +1663,10 @@ def selftest():
             {"id": "pa", "type": "Distribution", "distribution": "torch.distributions.Exponential", "x": "a", "parameters": {"rate": 2.0}},
             {"id": "ps", "type": "Distribution", "distribution": "torch.distributions.Dirichlet", "x": "s", "parameters": {"concentration": [1.0, 2.0, 3.0, 1.5]}},
         ]},
+        {"id": "w", "type": "TransformedParameter", "transform": "torch.distributions.ExpTransform", "x": "u"},
         {"id": "good", "type": "JointDistributionModel", "distributions": ["joint", "a", "s", "u"]},
+        {"id": "nested", "type": "JointDistributionModel", "distributions": ["joint", "a", "s", "u", "w"]},
+        {"id": "nested_lost", "type": "JointDistributionModel", "distributions": ["joint", "a", "s", "w"]},
         {"id": "twice", "type": "JointDistributionModel", "distributions": ["joint", "a", "a", "s"]},
         {"id": "miss", "type": "JointDistributionModel", "distributions": ["joint", "a"]},
     ]
@@ -1623,13 +1678,23 @@ def selftest():
     sig = torch.sigmoid(off)
     sb = (torch.log(sig) + torch.log1p(-sig)).sum() + torch.log(torch.cumprod(torch.cat([torch.ones(1, dtype=z.dtype), (1 - sig)[:-1]]), 0)).sum()
     want = float(dic["a.unres"].tensor.sum() + sb)
-    g = jacobian_oracle(dic["good"], dic["joint"], blocks)
-    if g["status"] != "ok" or abs(g["expected"] - want) > 1e-10 or abs(g["observed"] - g["expected"]) > 1e-10 or g["free_terms"] != ["u"]:
-        raise AssertionError("Jacobian oracle calibration (good books): %r vs %r" % (g, want))
-    t = jacobian_oracle(dic["twice"], dic["joint"], blocks)
-    if t["status"] != "ok" or abs(t["observed"] - t["expected"]) < 1e-3 or explain_jacobian(t) != "extra" or t["candidates"]["extra"] != ["a"]:
+    uz = dic["u.unres"].tensor
+    want_u = float((torch.log(torch.sigmoid(uz)) + torch.log1p(-torch.sigmoid(uz))).sum())
+    g = jacobian_oracle(dic["good"], dic["joint"], blocks, dic)
+    if (g["status"] != "ok" or abs(g["expected"] - want - want_u) > 1e-10 or abs(g["observed"] - g["expected"]) > 1e-10
+            or g["free_terms"] != [] or g["mandatory_free"] != ["u"] or not g.get("perturbed_checked")):
+        raise AssertionError("Jacobian oracle calibration (good books): %r vs %r" % (g, want + want_u))
+    # a transform of a transform: the outer term (w = exp(u), no density anywhere) is optional, the inner one is not
+    n1 = jacobian_oracle(dic["nested"], dic["joint"], blocks, dic)
+    if n1["status"] != "ok" or abs(n1["observed"] - n1["expected"]) > 1e-10 or n1["free_terms"] != ["w"]:
+        raise AssertionError("Jacobian oracle calibration (nested transforms): %r" % (n1,))
+    n2 = jacobian_oracle(dic["nested_lost"], dic["joint"], blocks, dic)
+    if n2["status"] != "ok" or abs(n2["observed"] - n2["expected"] + want_u) > 1e-10:
+        raise AssertionError("Jacobian oracle calibration (inner transform of a nested pair lost): %r" % (n2,))
+    t = jacobian_oracle(dic["twice"], dic["joint"], blocks, dic)
+    if t["status"] != "ok" or abs(t["observed"] - t["expected"]) < 1e-3:
         raise AssertionError("Jacobian oracle calibration (term counted twice): %r" % (t,))
-    m = jacobian_oracle(dic["miss"], dic["joint"], blocks)
+    m = jacobian_oracle(dic["miss"], dic["joint"], blocks, dic)
     if m["status"] != "ok" or abs(m["observed"] - m["expected"]) < 1e-3:
         raise AssertionError("Jacobian oracle calibration (missing term): %r" % (m,))
     for b, v in zip(blocks, ([0.3, -1.2], [0.2, -0.4, 0.9], [0.7])):
